@@ -112,6 +112,31 @@ static void RunManifest(const string& in) {
   }
 }
 
+// rule variables referring to each other: the text is the value part of three bindings of one rule, separated by '|'
+// (command | description | depfile); every binding is evaluated the way a build and the tools do.  A reference cycle
+// is reported through Fatal("cycle in rule variables"); everything else expands.
+static void RunRuleVars(const string& in) {
+  string v[3];
+  int k = 0;
+  for (char c : in) { if (c == '|') { if (++k > 2) return; } else v[k] += c; }
+  if (v[0].empty()) return;   // a rule needs a command
+  State state;
+  MemReader r;
+  r.files["build.ninja"] = "rule r\n  command = " + v[0] + "\n" + (v[1].empty() ? "" : "  description = " + v[1] + "\n") +
+                           (v[2].empty() ? "" : "  depfile = " + v[2] + "\n") + "build o: r i\n  pool = console\n";
+  ManifestParser p(&state, &r);
+  string err;
+  if (!p.Load("build.ninja", &err)) { g_counts->rejected++; return; }
+  for (Edge* e : state.edges_) {
+    if (e->is_phony()) continue;
+    e->GetBinding("description");
+    e->EvaluateCommand(true);
+    e->GetUnescapedDepfile();
+    e->GetBinding("command");
+  }
+  g_counts->accepted++;
+}
+
 static void RunDepfile(const string& in) {
   string content = in;
   DepfileParser p;
@@ -412,6 +437,7 @@ static vector<Format> Formats() {
                {"include ", "subninja ", "build.ninja", "./build.ninja", "sub/../build.ninja", ".//build.ninja", "g", "./g", "h", "./h", "f", "\n",
                 "rule r\n  command = c\n", "build x: r\n", "$\n", " "},
                RunManifest});
+  f.push_back({"rule_vars", {"x", "|", "$command", "$description", "$depfile", " ", "$out", "${command}", "$in"}, RunRuleVars});
   f.push_back({"depfile", {"a", " ", "\\", "#", "$", ":", "\n", "\r", string(1, '\0'), "\x80", "%", "\t"}, RunDepfile});
   f.push_back({"depfile_load", {"a", " ", "\\", "#", "$", ":", "\n", "\r", "b", "./a", "a.c", "x.h"}, RunDepfileLoad});
   f.push_back({"dyndep",
